@@ -102,21 +102,35 @@ def judge(case, col):
     if "cell" in case:
         return judge_cell(int(case["cell"], 16), col, "hyp")
     cell = guarded(a5.lonlat_to_cell, (case["lon"], case["lat"]), case["res"], kind="lonlat_to_cell_raised", case=case)
-    judge_cell(cell, col, "hyp")
+    judge_cell(cell, col, "branch_boundary" if case.get("src") == "boundary" else "hyp")
 
 
 def cases():
     by_id = gens.cell_ids(4, 29).map(lambda c: {"cell": hex(c)})
     by_loc = st.builds(lambda p, r: {"lon": p["lon"], "lat": p["lat"], "res": r}, gens.pts_base(), gens.resolutions(4, 29))
-    return st.one_of(by_id, by_loc)
+    by_edge = gens.edge_scaled_cases(4, 29).map(lambda c: {"lon": c["lon"], "lat": c["lat"], "res": c["res"]})
+    return st.one_of(by_id, by_loc, by_edge)
 
 
 def stage_hyp(ctx):
     hyp_drive(ctx, cases(), judge, 150 if ctx.tier == "quick" else 5000)
 
 
+def stage_boundary(ctx):
+    """Cells straddling the places where the projection code's own branches flip (lib/boundary.py)."""
+    from lib import boundary
+    anc = boundary.anchors(ctx, "proj", 120 if ctx.tier == "quick" else 600) + boundary.anchors(ctx, "cell", 60 if ctx.tier == "quick" else 300, per_type=2)
+    if not anc:
+        ctx.col.count("boundary_stage_skipped")
+        return
+    strat = st.builds(lambda a, r: {"lon": a["lon"], "lat": a["lat"], "res": r, "src": "boundary"},
+                      st.sampled_from(anc), st.sampled_from([8, 14, 20, 23, 24, 25, 26, 27, 28, 29]))
+    hyp_drive(ctx, strat, judge, 60 if ctx.tier == "quick" else 1500)
+
+
 def plan(tier):
-    return [Stage("enum", 16, stage_enum, cost=8), Stage("meta", 1, stage_meta), Stage("hyp", 16, stage_hyp, cost=8)]
+    return [Stage("enum", 16, stage_enum, cost=8), Stage("meta", 1, stage_meta), Stage("hyp", 16, stage_hyp, cost=8),
+            Stage("boundary", 16, stage_boundary, cost=7)]
 
 
 def replay(rec, col):
